@@ -21,6 +21,9 @@ CHECKS = {
     "C05": ("explicit-state BFS over the full mutator alphabets with step-by-step refinement check against executable reference models; choice-point enumeration of the random source for random_edge_shuffle",
             "On every transition of the C01/C02/C03 alphabets (all bulk formats, attribute precedence cases, weak/strong removal, remove_empty, merge rename x rule, clear, update, setters, swaps over state-dependent argument menus, random_edge_shuffle under every outcome of the owned random source) a reference model transcribed from the docstrings is loaded from the pre-state, executes the same call, and the full observable post-state (nodes, edges, members/tail+head, node/edge/network attributes) is compared; automatic IDs are adopted and checked for freshness; rejected edits with a missing/invalid ID must raise XGIError or IDNotFound; swaps/shuffles preserve degrees, sizes, IDs, attributes, untouched edges and shared nodes.",
             "the reference models (xmc/refmodel.py) are trusted transcriptions; inputs the documentation leaves undefined are classified UNSPEC and not judged; depth 3 / 4"),
+    "C06": ("explicit-state BFS over structural histories; every reachable state is an input to definitional oracles, with views/stats held across the whole history",
+            "Every canonical state of the three classes reached by a structural alphabet (depth 2 quick / 3 thorough, 6+4+4 initial states) is checked: a twin rebuilt with node/edge views, degree/size stats and a multi-stat created at the initial state and held across all mutations must report the current structure; survivors keep insertion order; degree/size/order (with order=, degree=, weight=), directed in/out/degree and head/tail sizes equal counts over the incidence; asdict/aslist/asnumpy/aspandas/multi (all layouts) agree and follow view order; filterby (7 modes + callable + stat object) and filterby_attr (missing=) on full and filtered views; neighbors (s=1,2), lookup over all subsets, duplicates, isolates, singletons, empty, maximal (strict and not) against set definitions.",
+            "bounded depth; numeric equality to 1e-9; tuple edge IDs (merge rename='tuple') exempt from the pandas index comparison because pandas turns them into a MultiIndex"),
 }
 
 NOT_APPLICABLE = []
